@@ -26,12 +26,12 @@ Keep_status_q(x) == x.dstB # "stale" /\ (x.borA => x.srcA # "ok") /\ (x.noDeps =
 
 \* graph slice: import shapes (cycle included), alias file, base modules absent, request forms
 Dom_graph == D({"none"}, {<<"AA-MIB">>, <<"BB-MIB">>, <<"afile">>, <<"BB-MIB", "afile">>, <<"afile", "AA-MIB">>},
-               Src3, {"missing"}, Src3, BB, BB, {"none", "AB", "BA", "both"}, {"exact", "variant"}, {"absent"}, {"absent", "fresh"}, {"dir"}, {"name", "path"}, FF, FF, BB, BB,
+               Src3, {"missing"}, Src3 \cup {"packed"}, BB, BB, {"none", "AB", "BA", "both"}, {"exact", "variant"}, {"absent"}, {"absent", "fresh"}, {"dir"}, {"name", "path"}, FF, FF, BB, BB,
                BB, FF, BB, BB, FF, {"no"}, FF, FF)
-Keep_graph_q(x) == (x.sub => x.srcB = "ok" /\ x.imp \in {"AB", "both"} /\ x.spell = "exact" /\ ~x.alias /\ x.dstB = "absent" /\ x.base /\ x.reqForm = "name")
+Keep_graph_q(x) == (x.srcB = "packed" => x.spell = "exact" /\ ~x.sub /\ x.reqForm = "name" /\ x.base) /\ (x.sub => x.srcB = "ok" /\ x.imp \in {"AB", "both"} /\ x.spell = "exact" /\ ~x.alias /\ x.dstB = "absent" /\ x.base /\ x.reqForm = "name")
                    /\ (x.reqForm = "path" => x.spell = "exact" /\ x.imp \in {"AB", "none"} /\ x.base /\ ~x.borB) /\ ~x.noWrites /\ (x.dstB = "fresh" => x.borB) /\ (x.spell = "variant" => x.imp # "none" /\ ~x.alias)
 
-Keep_graph_t(x) == (x.sub => x.reqForm = "name" /\ x.spell = "exact") /\ (x.reqForm = "path" => x.spell = "exact")
+Keep_graph_t(x) == (x.srcB = "packed" => ~x.sub) /\ (x.sub => x.reqForm = "name" /\ x.spell = "exact") /\ (x.reqForm = "path" => x.spell = "exact")
 
 \* sources slice: two source directories, the first / second holding a good / broken / no copy of AA-MIB
 Dom_sources == D({"none"}, {<<"AA-MIB">>, <<"AA-MIB", "BB-MIB">>, <<"afile", "AA-MIB">>, <<"afile">>, <<"Aa-Mib">>}, Src3, Src3, Src3, BB, FF, {"AB", "BA"}, {"exact"},
